@@ -119,6 +119,13 @@ def gen_render_race(rng, delay_us):
     return {"init": {"a": 1, "b": 0}, "bulk_keys": n, "threads": ths, "protocol": True, "bulk": n, "render_race": delay_us}
 
 
+def gen_fdflood(rng):
+    """the service runs out of file descriptors (idle connections), accept() fails for a while; once descriptors are free again
+    it must serve requests as before"""
+    return {"init": {"a": 4}, "threads": [[{"op": "fdflood", "hold_us": rng.choice([100000, 400000])}, {"op": "cget"}, {"op": "inc", "k": "a", "v": 1}, {"op": "cget"}]],
+            "protocol": True, "fdflood": True}
+
+
 def gen_stall(rng):
     return {"init": {"a": 1}, "threads": [[raw([], "stall", stall_ms=2300), {"op": "cget"}], [raw([ord("g")], "stall", stall_ms=2300)],
                                            [{"op": "inc", "k": "a", "v": 1}, {"op": "cget"}]], "protocol": True, "stall": True}
@@ -147,6 +154,8 @@ def cases(seed, tier):
         scns.append({"mode": "histories", "seed": rng.randint(1, 10**6), "histories": [gen_stall(rng)], "kind": "stall"})
     for _ in range(2 if quick else 20):
         scns.append({"mode": "histories", "seed": rng.randint(1, 10**6), "histories": [gen_bulk(rng)], "kind": "bulk"})
+    for _ in range(2 if quick else 12):
+        scns.append({"mode": "histories", "seed": rng.randint(1, 10**6), "histories": [gen_fdflood(rng)], "kind": "fdflood"})
     # sweep the moment of the update across the time a 20000-counter reply takes to build (measured per run: see render_ms)
     nrr = 24 if quick else 200
     for i in range(0, nrr, 6):
@@ -227,6 +236,10 @@ def judge_history(v, scn, h, hout):
             continue
         if kind == "creset" and o.get("res") != 0:
             v.bad("client-no-reply", "creset", "StatsClient::resetStats() returned %s" % o.get("res"))
+            continue
+        if kind == "fdflood":
+            v.count("fd_exhaustion_episodes")
+            v.count("idle_connections_held", o.get("idle_connections", 0))
             continue
         if kind != "sleep_us":
             lin_ops.append(o)
